@@ -17,6 +17,7 @@ def ops_of(case_path):
     """the operation lines of a case file, in order (after the dataset block)"""
     ops = []
     seen_end = False
+    in_refresh = False
     with open(case_path) as f:
         for line in f:
             s = line.split("#")[0].strip()
@@ -26,6 +27,14 @@ def ops_of(case_path):
                 if s == "end":
                     seen_end = True
                 continue
+            if in_refresh:
+                # the dataset block of a refresh belongs to that one operation
+                ops[-1] += "\n" + s
+                if s == "end":
+                    in_refresh = False
+                continue
+            if s.split()[0] == "refresh":
+                in_refresh = True
             ops.append(s)
     return ops
 
